@@ -150,6 +150,9 @@ func (o *Obligation) smtText(withModel bool) string {
 	if !o.Cover && (strings.Contains(all, "(slen ") || u.d.has("slen") && strings.Contains(all, "slen")) {
 		builtin += "(assert (forall ((s!sl Str)) (! (<= 0 (slen s!sl)) :pattern ((slen s!sl)))))\n"
 	}
+	if !o.Cover && strings.Contains(all, "(pow2 ") {
+		builtin += "(assert (= (pow2 0) 1))\n(assert (forall ((k!p Int)) (! (=> (>= k!p 0) (and (= (pow2 (+ k!p 1)) (* 2 (pow2 k!p))) (>= (pow2 k!p) 1))) :pattern ((pow2 k!p)))))\n"
+	}
 	if !o.Cover && strings.Contains(all, "(sconcat ") {
 		u.d.Fun("slen", []Sort{SStr}, SInt)
 		builtin += "(assert (forall ((a!sc Str) (b!sc Str)) (! (= (slen (sconcat a!sc b!sc)) (+ (slen a!sc) (slen b!sc))) :pattern ((sconcat a!sc b!sc)))))\n"
